@@ -112,7 +112,7 @@ func (c *c08) wireRead(z *codec.Sym, v ssa.Value, fr *codec.Frame, depth int) (*
 	if ret == nil {
 		return nil, false
 	}
-	return c.wireRead(z, ret.Results[0], &codec.Frame{Call: call, Callee: f, Parent: fr}, depth+1)
+	return c.wireRead(z, ret.Results[0], codec.ChildFrame(call, f, fr), depth+1)
 }
 
 // wireIntAt: v is an N-byte integer read at constant offset off of buf in the given order.
@@ -525,7 +525,7 @@ func (c *c08) challengeDesc(fn *ssa.Function, name string, root *ssa.Alloc, data
 			if depth >= 2 {
 				return "the payload is produced through more than two levels of helpers"
 			}
-			fr2 := &codec.Frame{Call: x, Callee: f, Parent: fr}
+			fr2 := codec.ChildFrame(x, f, fr)
 			n := 0
 			for _, b := range f.Blocks {
 				if ret, ok := b.Instrs[len(b.Instrs)-1].(*ssa.Return); ok {
